@@ -45,6 +45,17 @@ def traceText (d : Dir String) (t : List (Op String)) : String :=
   let (_, out) := t.foldl (fun (acc : Dir String × List String) o => (step acc.1 o, opText acc.1 o :: acc.2)) (d, [])
   ";".intercalate out.reverse
 
+/-- the harness's canonical form of a trace: consecutive writes to one file coalesced, empty writes
+(no system call is made for them) dropped. -/
+def canon : List (Op String) → List (Op String)
+  | [] => []
+  | .write n bs :: rest =>
+    match canon rest with
+    | .write m cs :: r => if n = m then .write n (bs ++ cs) :: r else
+        if bs.isEmpty then .write m cs :: r else .write n bs :: .write m cs :: r
+    | r => if bs.isEmpty then r else .write n bs :: r
+  | o :: rest => o :: canon rest
+
 def insertSorted (n : String) : List String → List String
   | [] => [n]
   | m :: r => if n < m then n :: m :: r else if n = m then m :: r else m :: insertSorted n r
@@ -120,6 +131,7 @@ def handle (st : St) (toks : List String) : St × String :=
     match modelTrace st params with
     | none => (st, "bad-op")
     | some t =>
+      let t := canon t
       let names := (t.flatMap opNames).foldl (fun acc n => insertSorted n acc) st.names
       let after := run st.dir t
       -- the process has exited and the history goes on: everything it wrote is on disk
